@@ -353,7 +353,11 @@ def _touch_commit_order(ctx, p):
                 okk = False
                 evs = [x for x, ls in flat_events(alt["events"], False)]
                 for x in evs:
-                    if x["func"] != _R.sweep_app:
+                    if x["func"] != _R.sweep_app and not (
+                            x["k"] in ("sql", "commit", "loop") and _R.sweep_app in x["stack"]
+                            and x.get("func", "").split(".")[0] not in ("Mailbox",)):
+                        # (statements run for the sweep by a query helper count
+                        # as the sweep's own)
                         continue
                     if x["k"] == "loop" and state == 0 and any(
                             _alt_touches(a) for a in x["alts"]):
@@ -463,7 +467,9 @@ def _touch_by_index(ctx, model, R):
     index_attr = None
     done = set()
     for p, e, loops in each_event(model, ["timer"], ("loop",)):
-        if id(e) in done or e["func"] != R.sweep_app:
+        if id(e) in done or not (e["func"] == R.sweep_app or (
+                R.sweep_app in e["stack"] and
+                e["func"].split(".")[0] == R.sweep_app.split(".")[0])):
             continue
         done.add(id(e))
         it = strip_wrappers(e["iter"]) if e["iter"] else None
